@@ -27,9 +27,12 @@ def proj_addr(a, with_time):
 def proj_msg(m):
     t = m.command.decode()
     if t == "version":
+        # fields an old protocol version does not carry are None in the parsed object: projected as empty values
         return {"t": t, "ver": le_signed(m.nVersion, 4), "services": le(m.nServices, 8), "time": le_signed(m.nTime, 8),
-                "addrTo": proj_addr(m.addrTo, False), "addrFrom": proj_addr(m.addrFrom, False), "nonce": le(m.nNonce, 8),
-                "subver": b2l(m.strSubVer), "height": le_signed(m.nStartingHeight, 4), "relay": int(m.fRelay)}
+                "addrTo": proj_addr(m.addrTo, False),
+                "addrFrom": proj_addr(m.addrFrom, False) if m.addrFrom is not None else {"services": [], "ip": [], "port": []},
+                "nonce": le(m.nNonce, 8) if m.nNonce is not None else [], "subver": b2l(m.strSubVer) if m.strSubVer is not None else [],
+                "height": le_signed(m.nStartingHeight, 4) if m.nStartingHeight is not None else [], "relay": int(m.fRelay)}
     if t in ("verack", "getaddr", "mempool"):
         return {"t": t}
     if t == "addr":
@@ -234,6 +237,27 @@ def drive(tier):
             stream(b, "single")
         for _ in range(10 if tier == "quick" else 100):
             stream(b"".join(r.choice(small) for _ in range(r.randrange(2, 6))), "multi")
+        # version messages as older protocol versions lay them out (the writer cannot produce these: framed by hand)
+        import hashlib as _hl
+        import struct as _st
+
+        def vframe(ver, layout_ver=None, relay=b"\x00"):
+            lv = ver if layout_ver is None else layout_ver
+            na = lambda: _st.pack("<Q", r.getrandbits(64)) + gen.rbytes(r, 16) + _st.pack(">H", r.getrandbits(16))
+            pl = _st.pack("<iQq", ver, r.getrandbits(64), r.getrandbits(62)) + na()
+            if lv >= 106:
+                sv_ = gen.rbytes(r, r.choice([0, 5, 20]))
+                pl += na() + _st.pack("<Q", r.getrandbits(64)) + bytes([len(sv_)]) + sv_
+                if lv >= 209:
+                    pl += _st.pack("<i", r.getrandbits(31))
+            if lv >= 70001:
+                pl += relay
+            return bitcoin.params.MESSAGE_START + b"version".ljust(12, b"\x00") + _st.pack("<I", len(pl)) + _hl.sha256(_hl.sha256(pl).digest()).digest()[:4] + pl
+        for ver in (0, 1, 105, 106, 107, 208, 209, 210, 300, 10300, 31800, 60002, 70000, 70001, 70002, -1):
+            stream(vframe(ver) + small[0], "version-%d" % ver)
+        for ver, lv in ((70001, 70000), (70015, 209), (209, 208), (106, 105), (60002, 70001), (105, 106), (208, 70001)):
+            stream(vframe(ver, lv) + small[0], "version-%d-laid-out-as-%d" % (ver, lv))
+        stream(vframe(70001, relay=b"\x01") + vframe(70001, relay=b"\x07"), "version-relay-values")
         # unknown command, and frames of another chain
         unk = small[0][:4] + b"foobar".ljust(12, b"\x00") + small[0][16:]
         stream(unk + small[1], "unknown-command")
@@ -298,7 +322,7 @@ def run(tier):
              "streams, unknown command, another chain's magic, every single-byte corruption and every truncation point of sampled frames "
              "(also as second frame), declared lengths 0, n-1, n+1, MAX_SIZE, MAX_SIZE+1, 2^31-1, 2^31, 2^32-1 incl. the empty-payload checksum; "
              "each read compared with the reference stream parser incl. stream position",
-        assumptions=["msg_version exercised with nVersion >= 70001 (what msg_ser writes)", "unknown command -> None after consuming exactly the frame (named deviation)"])
+        assumptions=["version messages announcing less than 70001 are parsed (hand-framed, every layout boundary 106/209/70001) but cannot be re-framed: the writer always writes every field", "unknown command -> None after consuming exactly the frame (named deviation)"])
 
 
 def replay(path):
